@@ -233,7 +233,7 @@ def gen_scenario(rng, plain=False):
         on_utxo = sid if smode == 'spent' else None
         if smode != 'spent' and bad(0.05):
             on_utxo = new_script()                              # the spent UTxO carries an unrelated script: it shadows every other source
-        uid = new_utxo(True, pay, rng.choice([1200000, 3000000, 9000000]), datum=datum, script=on_utxo)
+        uid = new_utxo(True, pay, rng.choice([1200000, 1500000, 3000000]), datum=datum, script=on_utxo)
         if smode == 'wit':
             src = ['script', sid]
         elif smode == 'ref':
@@ -261,7 +261,7 @@ def gen_scenario(rng, plain=False):
     # --- key-locked inputs
     change = rng.randbytes(28)
     for _ in range(rng.choice([0, 1, 1, 2, 3])):
-        uid = new_utxo(False, rng.choice([change, rng.randbytes(28)]), rng.choice([1500000, 4000000, 30000000]),
+        uid = new_utxo(False, rng.choice([change, rng.randbytes(28)]), rng.choice([1500000, 2000000, 30000000]),
                        script=(pick_script() if rng.random() < 0.1 else None))
         free.append(['input', uid])
         if rng.random() < 0.05:
@@ -315,7 +315,7 @@ def gen_scenario(rng, plain=False):
         else:
             certseq.append(['addcert', dict(cred_script=False, cred=rng.randbytes(28).hex(), pool=rng.randbytes(28).hex())])
     # --- extra datum in the witness set
-    if rng.random() < 0.2:
+    if rng.random() < 0.35:
         free.append(['outdatum', rand_pd(rng).hex()])
     S['native'] = [pick_script(0) for _ in range(rng.choice([0, 0, 0, 0, 1, 2]))]
     # --- random interleaving; certificate ops keep their order
@@ -331,7 +331,8 @@ def gen_scenario(rng, plain=False):
     S['build'] = dict(change=change.hex(), use_map=rng.random() < 0.6,
                       vstart=rng.choice([None] * 8 + [0, 100]), ttl=rng.choice([None] * 8 + [5, 10 ** 9]),
                       off_start=rng.choice([None] * 5 + [-5000, -1, 0, 700]), off_ttl=rng.choice([None] * 5 + [0, 1, 3000, -700]),
-                      mem_buf=buf[0], step_buf=buf[1])
+                      mem_buf=buf[0], step_buf=buf[1],
+                      pay=[rng.choice([3000000, 12000000, 40000000]) for _ in range(rng.choice([0, 0, 1, 1, 2]))])
     cms = {}
     for v in (1, 2, 3):
         if rng.random() < 0.85:
@@ -348,22 +349,46 @@ N_, Z_ = C.cn, C.cz
 LANG = {0: 'LNative', 1: 'LV1', 2: 'LV2', 3: 'LV3'}
 
 
+def HX(b):
+    return f'(hxl "{bytes(b).hex()}")'
+
+
+class Names:
+    """per-case Coq definitions of the scenario's scripts and UTxOs, referred to by name afterwards"""
+    def __init__(self, S, tag):
+        self.S, self.tag = S, tag
+
+    def script(self, sid):
+        return f's{self.tag}_{sid}'
+
+    def utxo(self, uid):
+        return f'u{self.tag}_{uid}'
+
+    def defs(self):
+        S = self.S
+        out = []
+        for sid, sp in enumerate(S['scripts']):
+            out.append(f'Definition {self.script(sid)} := mkScript {LANG[sp["lang"]]} {HX(script_hash(sp))}.')
+        for uid, u in enumerate(S['utxos']):
+            d = u['datum']
+            dat = 'ONone' if d is None else (f'(OHash {HX(bytes.fromhex(d[1]))})' if d[0] == 'hash' else f'(OInline {HX(bytes.fromhex(d[1]))})')
+            sc = 'None' if u['script'] is None else f'(Some {self.script(u["script"])})'
+            out.append(f'Definition {self.utxo(uid)} := mkUtxo ({HX(bytes.fromhex(u["id"]))}, {N_(u["ix"])}) '
+                       f'{C.cbool(u["script_addr"])} {HX(bytes.fromhex(u["pay"]))} {dat} {sc}.')
+        return '\n'.join(out) + '\n'
+
+
 def r_script(S, sid):
-    return f'(mkScript {LANG[S["scripts"][sid]["lang"]]} {C.chx(script_hash(S["scripts"][sid]))})'
+    return S['_names'].script(sid)
 
 
 def r_utxo(S, uid):
-    u = S['utxos'][uid]
-    d = u['datum']
-    dat = 'ONone' if d is None else (f'(OHash {C.chx(bytes.fromhex(d[1]))})' if d[0] == 'hash' else f'(OInline {C.chx(bytes.fromhex(d[1]))})')
-    sc = 'None' if u['script'] is None else f'(Some {r_script(S, u["script"])})'
-    return (f'(mkUtxo ({C.chx(bytes.fromhex(u["id"]))}, {N_(u["ix"])}) {C.cbool(u["script_addr"])} '
-            f'{C.chx(bytes.fromhex(u["pay"]))} {dat} {sc})')
+    return S['_names'].utxo(uid)
 
 
 def r_datum(hexcbor):
     b = bytes.fromhex(hexcbor)
-    return f'(mkDatum {C.chx(blake(b, 32))} {C.chx(b)})'
+    return f'(mkDatum {HX(blake(b, 32))} {HX(b)})'
 
 
 def r_rdm(r):
@@ -371,7 +396,7 @@ def r_rdm(r):
         return 'None'
     tag = 'None' if r['tag'] is None else f'(Some {N_(r["tag"])})'
     un = 'None' if r['units'] is None else f'(Some ({N_(r["units"][0])}, {N_(r["units"][1])}))'
-    return f'(Some (mkRdm {N_(r["rid"])} {tag} 0%nat {C.chx(bytes.fromhex(r["data"]))} {un}))'
+    return f'(Some (mkRdm {N_(r["rid"])} {tag} 0%nat {HX(bytes.fromhex(r["data"]))} {un}))'
 
 
 def r_src(S, src, at_uid=None):
@@ -400,7 +425,7 @@ def r_op(S, op):
         c = {'mint': 'AddMintingScript', 'wdrl': 'AddWithdrawalScript', 'cert': 'AddCertificateScript'}[k]
         return f'{c} {r_src(S, op[1])} {r_rdm(op[2])}'
     if k == 'addcert':
-        return f'AddCert {C.chx(cert_cbor(op[1]))}'
+        return f'AddCert {HX(cert_cbor(op[1]))}'
     if k == 'outdatum':
         return f'AddOutputDatum {r_datum(op[1])}'
     raise ValueError(k)
@@ -419,14 +444,14 @@ def oz(x):
 def r_args(S):
     B = S['build']
     units = C.clist([f'({N_(rid)}, ({N_(m)}, {N_(s)}))' for rid, (m, s) in sorted(buffered(S).items())])
-    return (f'(mkArgs {C.clist([C.chx(bytes.fromhex(p)) for p, _ in S["mint"]])} '
-            f'{C.clist([C.chx(bytes.fromhex(a)) for a, _ in S["wdrl"]])} {N_(S["net"])} [] {units} true '
+    return (f'(mkArgs {C.clist([HX(bytes.fromhex(p)) for p, _ in S["mint"]])} '
+            f'{C.clist([HX(bytes.fromhex(a)) for a, _ in S["wdrl"]])} {N_(S["net"])} [] {units} true '
             f'{Z_(S["last_slot"])} {oz(B["vstart"])} {oz(B["ttl"])} {oz(B["off_start"])} {oz(B["off_ttl"])})')
 
 
 def stab_entry(S, sid):
     sp = S['scripts'][sid]
-    return f'({C.chx(bytes.fromhex(sp["hex"]))}, {r_script(S, sid)})'
+    return f'({HX(bytes.fromhex(sp["hex"]))}, {r_script(S, sid)})'
 
 
 def r_case(S):
@@ -462,7 +487,7 @@ def r_impl(R):
     if k[0] in ('outside', 'unmodelled'):
         return 'IOutside'
     rl = C.clist([f'({N_(rid)}, {N_(tag)}, {C.cnat(ix)}, ({N_(m)}, {N_(s)}))' for rid, tag, ix, m, s in R['rl']])
-    return f'(IDone {C.chx(bytes.fromhex(R["tx"]))} {C.chx(bytes.fromhex(R["wits_nodup"]))} {rl})'
+    return f'(IDone {HX(bytes.fromhex(R["tx"]))} {HX(bytes.fromhex(R["wits_nodup"]))} {rl})'
 
 
 HEADER = '''From Coq Require Import NArith ZArith String List Bool.
@@ -473,9 +498,14 @@ Open Scope string_scope.
 
 
 def render(cases, results):
-    items = [f'({i}%nat, ({r_case(S)}, {r_impl(R)}))' for i, (S, R) in enumerate(zip(cases, results))]
-    body = 'Definition cases : list (nat * (case * implres)) :=\n' + C.clist(items) + '.\n'
-    body += 'Definition res := Eval vm_compute in (map (fun c => (fst c, (corr (fst (snd c)) (snd (snd c)), oracle (fst (snd c)) (snd (snd c))))) cases).\n'
+    defs, items = [], []
+    for i, (S, R) in enumerate(zip(cases, results)):
+        S = dict(S); S['_names'] = Names(S, i)
+        defs.append(S['_names'].defs())
+        defs.append(f'Definition c{i} : case := {r_case(S)}.\nDefinition r{i} : implres := {r_impl(R)}.\n')
+        items.append(f'({i}%nat, (c{i}, r{i}))')
+    body = ''.join(defs) + 'Definition cases : list (nat * (case * implres)) :=\n' + C.clist(items) + '.\n'
+    body += 'Definition res := Eval vm_compute in (map (fun c => (fst c, judge (fst (snd c)) (snd (snd c)))) cases).\n'
     body += 'Eval vm_compute in (map fst (filter (fun r => negb (fst (snd r))) res)).\n'
     for sel in ('fst (fst (fst o))', 'snd (fst (fst o))', 'snd (fst o)', 'snd o'):
         body += f'Eval vm_compute in (map fst (filter (fun r => let o := snd (snd r) in N.eqb ({sel}) 1) res)).\n'
@@ -533,7 +563,7 @@ def n_redeemers(R):
 
 
 def correspond(ctx, n=None):
-    n = n or ctx.n(480, 12000)
+    n = n or ctx.n(300, 12000)
     cases = [gen_scenario(ctx.rng) for _ in range(n)]
     results = C.run_impl('plutusbuild_driver', {'cases': cases})
     mism, ofail, undec, errs = evaluate(cases, results)
@@ -563,6 +593,7 @@ def correspond(ctx, n=None):
         shape['ref_script'] += any(o[0] != 'input' and isinstance(o[1 if o[0] != 'sinput' else 2], list)
                                    and o[1 if o[0] != 'sinput' else 2][0] == 'utxo' for o in cases[i]['ops']
                                    if o[0] in ('sinput', 'mint', 'wdrl', 'cert'))
+        shape['coin_selected'] += results[i]['n_inputs'] > len({o[1] for o in cases[i]['ops'] if o[0] in ('input', 'sinput')})
         shape['redeemer_map'] += bool(cases[i]['build']['use_map'])
         shape['evaluated'] += results[i]['evals'] > 0
 
